@@ -80,3 +80,18 @@ pub fn run_c01() {
         Ok(x) => { let tx = MultiEraTx::decode(&x.payload).unwrap(); let b = &tx.as_conway().unwrap().transaction_body; println!("language level `reference r {{ ref: 5, }}`: Ok, reference_inputs={:?}", b.reference_inputs.as_ref().map(|x| x.len())); }
     }
 }
+
+
+pub fn run_c02_withdrawals() {
+    // two withdrawal blocks from the same reward account: 5 and 7 lovelace
+    let a = addr(ADDR_A);
+    let tx = lower("party P; tx t() { cardano::withdrawal { from: P, amount: 5, } cardano::withdrawal { from: P, amount: 7, } output { to: P, amount: Ada(2000000), } }", "t");
+    let args: BTreeMap<String, ArgValue> = BTreeMap::from([("p".to_string(), ArgValue::Address(a.clone()))]);
+    let tx = tx.apply_args(&args).unwrap().apply_fees(0).unwrap().reduce().unwrap();
+    let mut c = cm_compiler();
+    match c.compile(&AnyTir::V1Beta0(tx)) {
+        Err(e) => println!("two withdrawals (5, 7) from one account: Err({e})"),
+        Ok(x) => { let t = MultiEraTx::decode(&x.payload).unwrap(); let b = &t.as_conway().unwrap().transaction_body;
+            println!("two withdrawals (5, 7) from one account: Ok, body withdrawals = {:?}", b.withdrawals.as_ref().map(|m| m.iter().map(|(_, v)| *v).collect::<Vec<_>>())); }
+    }
+}
